@@ -44,6 +44,8 @@ type VerifSample struct {
 	NonSync   bool
 	PTSOffset int32
 	Payload   []byte
+	// ParamsChange (gated mode, key frames): the access unit carries a sequence header that differs from the current one
+	ParamsChange bool
 }
 
 // VerifRec is one recorder instance (one stream id).
@@ -68,6 +70,7 @@ type VerifRec struct {
 	closed bool
 	strm   *stream.Stream
 	cbs    []stream.OnDataFunc
+	altHdr map[int]bool
 }
 
 // VerifAV1SeqHeader is the sequence header OBU put in front of every key frame in gated mode.
@@ -164,7 +167,17 @@ func (v *VerifRec) Write(s VerifSample) error {
 			if s.NonSync {
 				u.Payload = unit.PayloadAV1{frame}
 			} else {
-				u.Payload = unit.PayloadAV1{VerifAV1SeqHeader, frame}
+				if v.altHdr == nil {
+					v.altHdr = map[int]bool{}
+				}
+				if s.ParamsChange {
+					v.altHdr[s.Track] = !v.altHdr[s.Track]
+				}
+				hdr := append([]byte(nil), VerifAV1SeqHeader...)
+				if v.altHdr[s.Track] {
+					hdr[len(hdr)-1] ^= 1 // other codec parameters
+				}
+				u.Payload = unit.PayloadAV1{hdr, frame}
 			}
 		} else {
 			u.Payload = unit.PayloadOpus{s.Payload}
